@@ -33,6 +33,7 @@ REPLAY_PROFILES = ['dev']
 TIME_LIMIT = {'quick': 300, 'thorough': 1500}
 BUDGET = 150
 FIRST_BUDGET = 60
+UNITSETS_MORE = [['Kelvin'], ['Ampere', 'Second'], ['units::WATT'], ['mass::POUND'], ['volume::LITRE', 'Second'], ['units::time::YEAR'], ['length::MILE', 'units::time::HOUR'], ['Mole'], ['Byte', 'Second']]
 UNITSETS = [[], ['Meter'], ['Second'], ['units::time::DECADE'], ['units::time::CENTURY'], ['units::NEWTON'], ['Meter', 'Second'], ['energy::JOULE', 'KiloGram', 'Kelvin'], ['length::FOOT'], ['units::time::MILLENIUM', 'Second']]
 
 _inst = False
@@ -117,7 +118,7 @@ def jobs(tier, seed, report):
     report.models_used = ['fmt', 'coll', 'core', 'num', 'strings']
     report.required_witnesses = ['exact-integer', 'exact-fraction', 'decimal-12-12', 'blank-iff-numerator', 'plural-single-numerator', 'denominator-separator', 'error-does-not-stop-output', 'superscript-power']
     js = []
-    for i, us in enumerate(UNITSETS):
+    for i, us in enumerate(UNITSETS + (UNITSETS_MORE if tier != 'quick' else [])):
         js.append({'name': f'ok-{i}', 'shape': ['ok'], 'units': [us]})
     js.append({'name': 'err-ok', 'shape': ['err', 'ok'], 'units': [None, ['Meter']]})
     js.append({'name': 'ok-err-ok', 'shape': ['ok', 'err', 'ok'], 'units': [['Second'], None, ['Meter', 'Second']]})
